@@ -13,7 +13,8 @@ var intrinsics = map[string]intrinsicFn{}
 
 // redirect: calls to these functions are replaced by a Go-source model living in verifrt.
 var redirects = map[string]string{
-	"sort.Slice": "SortSliceModel",
+	"sort.Slice":        "SortSliceModel",
+	"(*sync.Pool).Get": "PoolGetModel",
 }
 
 func (ex *Exec) call(st *State, fr *Frame, x *ssa.Call) bool {
